@@ -1,0 +1,15 @@
+//go:build verif
+
+package kgo
+
+import "github.com/twmb/franz-go/pkg/kgo/internal/sticky"
+
+// This file exists only in builds with the `verif` tag. Nothing here changes
+// client behavior.
+
+// VerifSetStickyTrace installs (or, with nil, removes) the sink receiving the
+// sticky engine's decision events (see internal/sticky/verif_trace_on.go).
+// Not safe for use concurrently with a running balance.
+func VerifSetStickyTrace(fn func(kind byte, m, m2, topic string, part int32)) {
+	sticky.VerifTrace = fn
+}
